@@ -85,6 +85,21 @@ pub fn run(seed: u64, n: usize, extra: &[String]) -> String {
         *counters.entry("vectors").or_insert(0) += 1;
         let shape = format!("{}|{}|{}", v.iter().take_while(|t| t.starts_with('-')).count().min(4), parsed.command.is_some(), v.len().min(6));
         sigs.insert(shape);
+        if inv != v && wf && has_meta {
+            // the documented normalisation turns a top-level --help / -h / --version / -v into the help / version subcommand; the global
+            // options typed in front of it are still the user's arguments and must be handed on verbatim, in the same order
+            if let Some(k) = v.iter().position(|t| ["--version", "-v", "--help", "-h"].contains(&t.as_str())) {
+                let before_is_global_only = v[..k].iter().all(|t| t.starts_with('-') || GLOBALS_VAL.iter().any(|(_, val)| val == t));
+                if before_is_global_only && (inv.len() < k || inv[..k] != v[..k]) {
+                    *counters.entry("meta_vectors_prefix_checked").or_insert(0) += 1;
+                    if viol.len() < 8 {
+                        viol.push(json!({"kind": "C18/global-options-before-help-or-version-not-handed-on", "argv": v, "reemitted": inv}));
+                    }
+                } else if before_is_global_only {
+                    *counters.entry("meta_vectors_prefix_checked").or_insert(0) += 1;
+                }
+            }
+        }
         if inv != v {
             *counters.entry("reemitted_differently").or_insert(0) += 1;
             let key = format!("{:?}", v);
